@@ -61,6 +61,12 @@ func TestC11_Mgrx(t *testing.T) {
 				var m datatransfer.Message
 				if selfI {
 					m = message.UpdateResponse(c.chid.ID, act == "remote-pause")
+					// every response of the responder restates its pause state, not only plain updates
+					if rapid.IntRange(0, 2).Draw(t, "carriedByVoucherResult") == 0 {
+						vr := datatransfer.TypedVoucher{Type: "T/r", Voucher: basicnode.NewString(fmt.Sprint("remote-vr", i))}
+						m, _ = message.VoucherResultResponse(c.chid.ID, true, act == "remote-pause", &vr)
+						sp.Class("pause_state_carried_by_a_voucher_result")
+					}
 				} else {
 					m = message.UpdateRequest(c.chid.ID, act == "remote-pause")
 				}
